@@ -263,6 +263,15 @@ func (r *Rediaron) BatchPut(ctx context.Context, data map[string]string) error {
 
 // BatchCreateAndDecr decr processing and add workload
 func (r *Rediaron) BatchCreateAndDecr(ctx context.Context, data map[string]string, decrKey string) (err error) {
+	// like etcd: there must be something to decrease
+	count, err := r.cli.Exists(ctx, decrKey).Result()
+	if err != nil {
+		return err
+	}
+	if count != 1 {
+		return errors.Wrap(types.ErrKeyNotExists, decrKey)
+	}
+
 	batchCreateAndDecr := func(pipe redis.Pipeliner) error {
 		pipe.Decr(ctx, decrKey)
 		for key, value := range data {
